@@ -156,8 +156,9 @@ metas!(0 1 2 3 4 5 6 7 8 9 10 11 12 13 14 15 16 17 18 19 20 21 22 23 24 25 26 27
        299 300 301 302 303 304 305 306 307 308 309 310 311 312 313 314 315 316 317 318 319);
 
 pub fn meta_with(k: usize, alias: usize, phantom: Option<usize>) -> MetaType {
-    if Some(k) == phantom {
-        let kind = *REAL_KIND.lock().unwrap();
+    // every node from index `phantom` on stands for a real std identity
+    if phantom.map_or(false, |p| k >= p) {
+        let kind = REAL_KIND.lock().unwrap().get(k - phantom.unwrap()).copied().unwrap_or(0);
         // several Rust types declare each of these identities; alternate between them
         return match (kind, alias) {
             (0, 0) => MetaType::new::<PhantomData<u8>>(),
@@ -176,7 +177,7 @@ pub fn meta_with(k: usize, alias: usize, phantom: Option<usize>) -> MetaType {
     }
     meta_node(k, alias)
 }
-static REAL_KIND: Mutex<usize> = Mutex::new(0);
+static REAL_KIND: Mutex<Vec<usize>> = Mutex::new(Vec::new());
 pub fn meta(k: usize, alias: usize) -> MetaType {
     let ph = TABLE.lock().unwrap().phantom;
     meta_with(k, alias, ph)
@@ -185,7 +186,7 @@ pub fn load(specs: Vec<Type<PortableForm>>, phantom: Option<usize>) {
     let mut tb = TABLE.lock().unwrap();
     tb.evals = vec![0; specs.len()];
     if let Some(k) = phantom {
-        *REAL_KIND.lock().unwrap() = real_kind(&specs[k]);
+        *REAL_KIND.lock().unwrap() = specs[k..].iter().map(real_kind).collect();
     }
     tb.specs = specs;
     tb.phantom = phantom;
